@@ -113,6 +113,9 @@ func c16Variations(hist func(string), tn string) []c16Var {
 		{Name: "via-symlink-relative-target-cwd-at-link", Cwd: "/v/links", Src: "rel"},
 		{Name: "via-symlink-chain-of-two", Cwd: "/v/else/deep", Src: "/v/links/chain"},
 		{Name: "via-symlink-trailing-slash", Cwd: "/", Src: "/v/links/abs/"},
+		{Name: "via-symlink-dot-segment", Cwd: "/", Src: "/v/links/abs/."},
+		{Name: "via-symlink-relative-target-dot-slash", Cwd: "/v/else/deep", Src: "/v/links/rel/./"},
+		{Name: "via-symlink-relative-spelling-dot-segment", Cwd: "/v/links", Src: "./chain/."},
 		{Name: "after-pack-of-another-tree", Cwd: "/", Src: "/v/work/tree", Prep: func() error { hist("other"); return nil }},
 		{Name: "after-pack-of-negation-first-rules", Cwd: "/", Src: "/v/work/tree", Prep: func() error { hist("neg"); return nil }},
 		{Name: "after-50-mixed-calls", Cwd: "/v/else", Src: "/v/work/tree", Prep: func() error {
@@ -253,6 +256,31 @@ func c16Concurrent(env *fw.Env, idx int) fw.Result {
 		}
 		shared, _ = slug.NewPacker(so.options()...)
 		res.Class = "concurrent-round-shared-packer"
+	}
+	// call history of the process: Pack calls whose destination failed at
+	// the first byte, half way, and at the very end of the stream (the final
+	// flush); what an earlier, failed call left behind must not matter
+	if idx%4 >= 2 {
+		for _, j := range jobs[:min(3, len(jobs))] {
+			if j.dir == "" {
+				continue
+			}
+			ok := doPack(j.dir, j.opts)
+			if ok.Err != nil || ok.Panic != "" {
+				continue
+			}
+			for _, left := range []int{0, len(ok.Data) / 2, len(ok.Data) - 1, len(ok.Data) - 9} {
+				if left < 0 {
+					continue
+				}
+				p := shared
+				if p == nil {
+					p, _ = slug.NewPacker(j.opts.options()...)
+				}
+				fw.Try(func() { p.Pack(j.dir, &failingWriter{left: left}) })
+			}
+		}
+		res.Class += "-after-failed-packs"
 	}
 	start := make(chan struct{})
 	var wg sync.WaitGroup
@@ -399,8 +427,8 @@ func init() {
 	fw.Register(&fw.Property{
 		ID:    "C16",
 		Level: "exploration",
-		Rule: "for each generated tree (with one of 7 rule files) and option set, Pack runs once by the absolute clean path (baseline) and then under 18 variations: 8 spellings/working directories (trailing slash, doubled slash, dot segments, relative from parent / inside / elsewhere / sibling), 5 ways through a symlink (absolute target, relative target with the working directory elsewhere and at the link, chain of two, trailing slash) and 5 call histories (another tree, a rule file beginning with a negation, the same relative spelling / '.' used earlier from another working directory for a different tree whose rule file has the same size and mtime, 50 mixed calls); decoded entry lists must be identical. " +
-			"Reuse: one Packer value (options incl. relative AllowSymlinkTarget entries) packs three different roots in PRNG order and every output must equal that of a fresh Packer with the same options. Concurrency: fresh race-instrumented worker per round, 8-16 goroutines packing different trees (default rules / negation-first rule files mixed) 3 times each behind a barrier (every other round through one shared Packer value), outputs compared with solo runs; any race report is a violation. non-trivial = every case (each has >=1 non-baseline variation); distinct = tree x rules x options",
+		Rule: "for each generated tree (with one of 7 rule files) and option set, Pack runs once by the absolute clean path (baseline) and then under 21 variations: 8 spellings/working directories (trailing slash, doubled slash, dot segments, relative from parent / inside / elsewhere / sibling), 8 ways through a symlink (absolute target, relative target with the working directory elsewhere and at the link, chain of two, trailing slash, dot segments after the link) and 5 call histories (another tree, a rule file beginning with a negation, the same relative spelling / '.' used earlier from another working directory for a different tree whose rule file has the same size and mtime, 50 mixed calls); decoded entry lists must be identical. " +
+			"Reuse: one Packer value (options incl. relative AllowSymlinkTarget entries) packs three different roots in PRNG order and every output must equal that of a fresh Packer with the same options. Concurrency: fresh race-instrumented worker per round, 8-16 goroutines packing different trees (default rules / negation-first rule files mixed) 3 times each behind a barrier (every other round through one shared Packer value; half of the rounds after Pack calls whose destination failed at the first byte, half way and at the final flush), outputs compared with solo runs; any race report is a violation. non-trivial = every case (each has >=1 non-baseline variation); distinct = tree x rules x options",
 		Assumptions: []string{"the baseline run is Pack of the absolute clean path in the same process", "the race detector only sees the interleavings the scheduler produced in these rounds"},
 		Phases:      []*fw.Phase{variations, reused, conc},
 	})
